@@ -14,7 +14,7 @@ Proved here, for all inputs:
 * `verify_sign_standard`, `verify_sign_extended` — the same statement specialised to the pallas
   entry points (`SecretKey::{public_key, sign}`, `SecretKeyExtended::{public_key, sign}`,
   `PublicKey::verify`), conditional on `Interp ed`.
-* `check_structure_iff`, `clamp_satisfies`, `from_bytes_accepts_iff` —
+* `check_structure_iff`, `check_structure_scalar`, `clamp_satisfies`, `from_bytes_accepts_iff` —
   the clamping check, over all byte values (the finite part is a `decide` over one byte, lifted).
 
 **Not proved (named remainder):** `Interp ed`, i.e. that the extended-coordinate Edwards formulas
@@ -282,6 +282,61 @@ theorem clamp_satisfies (ext : Bytes) (hl : 32 ≤ ext.length) : checkStructure 
     · have := byte_clamp0 b0.toNat (UInt8.toNat_lt b0); rwa [ofNat_toNat] at this
     · have := byte_clamp31 (rest.getD 30 0).toNat (UInt8.toNat_lt _); rwa [ofNat_toNat] at this
 
+theorem leNat_append (a b : Bytes) : leNat (a ++ b) = leNat a + 256 ^ a.length * leNat b := by
+  induction a with
+  | nil => simp [leNat]
+  | cons x xs ih =>
+    simp only [List.cons_append, leNat, ih, List.length_cons, Nat.pow_succ]
+    rw [Nat.mul_add, Nat.mul_comm (256 ^ xs.length) 256, Nat.mul_assoc]
+    omega
+
+theorem leNat_lt (a : Bytes) : leNat a < 256 ^ a.length := by
+  induction a with
+  | nil => simp [leNat]
+  | cons x xs ih =>
+    simp only [leNat, List.length_cons, Nat.pow_succ]
+    have := UInt8.toNat_lt x
+    omega
+
+/-- **bit-level reading on the scalar**: a 64-byte extended key passes `check_structure` exactly when its
+    secret scalar `a` (bytes 0..32, little endian) is a multiple of 8 with `2^254 ≤ a < 2^255`. -/
+theorem check_structure_scalar (ext : Bytes) (hl : 32 ≤ ext.length) :
+    checkStructure ext = true ↔
+      leNat (ext.take 32) % 8 = 0 ∧ 2 ^ 254 ≤ leNat (ext.take 32) ∧ leNat (ext.take 32) < 2 ^ 255 := by
+  rw [check_structure_iff]
+  -- ext.take 32 = b0 :: mid ++ [b31]
+  match ext, hl with
+  | b0 :: rest, hl =>
+    have hr : 31 ≤ rest.length := by simpa using hl
+    have e : (b0 :: rest).take 32 = b0 :: (rest.take 30 ++ [rest.getD 30 0]) := by
+      simp only [List.take_succ_cons]
+      congr 1
+      have h31 : rest.take 31 = rest.take 30 ++ [rest.getD 30 0] := by
+        rw [List.take_succ]
+        congr 1
+        have : 30 < rest.length := by omega
+        simp [List.getD_eq_getElem?_getD, List.getElem?_eq_getElem this]
+      exact h31
+    have hmid : (rest.take 30).length = 30 := by simp; omega
+    have hm := leNat_lt (rest.take 30)
+    rw [hmid] at hm
+    have hval : leNat ((b0 :: rest).take 32) = b0.toNat + 256 * (leNat (rest.take 30) + 256 ^ 30 * (rest.getD 30 0).toNat) := by
+      rw [e]; simp only [leNat, leNat_append, hmid, Nat.mul_zero, Nat.add_zero]
+    have g0 : (b0 :: rest).getD 0 0 = b0 := rfl
+    have g31 : (b0 :: rest).getD 31 0 = rest.getD 30 0 := rfl
+    rw [g0, g31, hval]
+    have hb0 := UInt8.toNat_lt b0
+    have hb31 := UInt8.toNat_lt (rest.getD 30 0)
+    generalize leNat (rest.take 30) = M at hm ⊢
+    generalize (rest.getD 30 0).toNat = c at hb31 ⊢
+    generalize b0.toNat = a at hb0 ⊢
+    have p30 : (256 : Nat) ^ 30 = 1766847064778384329583297500742918515827483896875618958121606201292619776 := by decide
+    have p254 : (2 : Nat) ^ 254 = 28948022309329048855892746252171976963317496166410141009864396001978282409984 := by decide
+    have p255 : (2 : Nat) ^ 255 = 57896044618658097711785492504343953926634992332820282019728792003956564819968 := by decide
+    rw [p30] at hm ⊢
+    rw [p254, p255]
+    omega
+
 /-! ## where `verify` departs from the strict RFC 8032 reference -/
 
 /-- the full-strength reading of "verification accepts exactly what the reference accepts" -/
@@ -293,5 +348,27 @@ def FullStatement : Prop := ∀ pk msg sig : Bytes, pk.length = 32 → sig.lengt
 def witnessNoncanonicalPk : Bytes := 0xee :: (List.replicate 30 0xff ++ [0x7f])
 def witnessXZeroSignPk : Bytes := 1 :: (zeros 30 ++ [0x80])
 def witnessSig : Bytes := (1 :: zeros 31) ++ zeros 32
+
+/-! The halves of the two departures that need no curve computation (the other halves — `verify` accepts the
+    non-canonical key, `verifyRfc` accepts a signature under the all-zero key — are evaluated by the compiled
+    driver in `Ed25519.selfTest` and replayed against the real code by the stream). -/
+
+/-- cryptoxide's outright rejection of the all-zero key, for every message and signature -/
+theorem verify_rejects_allzero (m sig : Bytes) : verify (zeros 32) m sig = false := by
+  unfold verify verifyWith
+  have hz : (zeros 32).all (· == 0) = true := by decide
+  cases ed.dec (zeros 32) with
+  | none => rfl
+  | some A =>
+    simp only [hz, ↓reduceIte]
+    split <;> rfl
+
+/-- the strict reference rejects the non-canonical encoding `ee ff…ff 7f` (`y = p + 1`) whatever the
+    message and signature -/
+theorem verifyRfc_rejects_noncanonical (m sig : Bytes) : verifyRfc witnessNoncanonicalPk m sig = false := by
+  have hy : leNat (witnessNoncanonicalPk.take 32) % 2 ^ 255 ≥ p := by decide +kernel
+  have hd : decodeStrict witnessNoncanonicalPk = none := by
+    simp only [decodeStrict, hy, ↓reduceIte]
+  simp [verifyRfc, hd]
 
 end PallasVerif.Props.C11
